@@ -1046,4 +1046,221 @@ class C06(Oracle):
         return out
 
 
-ORACLES = {'C18': C18, 'C08': C08, 'C09': C09, 'C10': C10, 'C11': C11, 'C12': C12, 'C05': C05, 'C06': C06, 'C07': C07}
+
+_ENV_CACHE = {}
+
+
+def shipped_files():
+    import glob
+    import os
+
+    return sorted(glob.glob(os.path.join(gvenv.REPO, 'yaml', '*.yaml')))
+
+
+def load_cfg(path):
+    from harness import miniyaml
+
+    with open(path) as f:
+        return miniyaml.safe_load(f)
+
+
+def build_env(cfg_key, data=None):
+    """fresh GridWorld from a shipped file name or an explicit configuration dict"""
+    import copy
+    from gym_gridverse.envs.yaml.factory import factory_env_from_data
+
+    if data is None:
+        data = load_cfg(cfg_key)
+    return factory_env_from_data(copy.deepcopy(data))
+
+
+def gen_env_cases(rng, p_random=0.4):
+    from harness import corr_env
+
+    files = shipped_files()
+    while True:
+        if rng.random() < p_random:
+            data = corr_env.random_config(rng)
+            src = {'config': data}
+            nact = len(data.get('action_space') or ACTIONS)
+        else:
+            f = rng.choice(files)
+            src = {'file': f}
+            d = load_cfg(f)
+            nact = len(d.get('action_space') or ACTIONS)
+        n = rng.randint(3, 40)
+        acts = [rng.randrange(nact) for _ in range(n)]
+        reads = [rng.choice(['', 'o', 'oo', 's', 'os', 'r']) for _ in range(n)]
+        yield dict(kind='env', seed=rng.randrange(2**31), actions=acts, reads=reads, **src)
+
+
+def env_of_case(c):
+    return build_env(c.get('file'), c.get('config'))
+
+
+def obs_eq(a, b):
+    return enc_state(a) == enc_state(b)
+
+
+class C04(Oracle):
+    prop = 'C04'
+
+    def gen(self, rng):
+        return gen_env_cases(rng)
+
+    def check(self, c):
+        import numpy as np
+
+        out = []
+        env = env_of_case(c)
+        ref = env_of_case(c)
+        acts = env.action_space.actions
+        # before the first reset
+        for name, f in (('state', lambda: env.state), ('observation', lambda: env.observation), ('step', lambda: env.step(acts[0]))):
+            try:
+                f()
+                out.append(V('stateful/no-error-before-reset', f'{name} {c.get("file")}'))
+            except RuntimeError:
+                pass
+            except Exception as e:
+                out.append(V('stateful/wrong-error-before-reset', f'{name}: {type(e).__name__}'))
+        env.set_seed(c['seed'])
+        ref.set_seed(c['seed'])
+        env.reset()
+        s = ref.functional_reset()
+        if not obs_eq(env.state, s):
+            out.append(V('stateful/reset-differs-from-functional', f'{c.get("file")} seed={c["seed"]}'))
+            return out
+        deterministic_obs = True
+        for k, (ai, rd) in enumerate(zip(c['actions'], c['reads'])):
+            a = acts[ai]
+            for ch in rd:
+                if ch == 'o':
+                    before = env._rng.bit_generator.state
+                    had = env._observation is not None
+                    o1 = env.observation
+                    mid = env._rng.bit_generator.state
+                    o2 = env.observation
+                    if o2 is not o1:
+                        out.append(V('stateful/observation-recomputed', f'step {k}'))
+                    if env._rng.bit_generator.state != mid or (had and mid != before):
+                        out.append(V('stateful/observation-read-consumes-randomness', f'step {k}'))
+                    # freshness: it is the observation of the current state
+                    ref._rng.bit_generator.state = before if not had else ref._rng.bit_generator.state
+                    exp = ref.functional_observation(s) if not had else None
+                    if exp is not None and not obs_eq(o1, exp):
+                        out.append(V('stateful/stale-or-wrong-observation', f'{c.get("file")} step {k}'))
+                    if exp is not None:
+                        ref._rng.bit_generator.state = env._rng.bit_generator.state
+                elif ch == 's':
+                    if not obs_eq(env.state, s):
+                        out.append(V('stateful/state-differs', f'step {k}'))
+                elif ch == 'r':
+                    env.reset()
+                    s = ref.functional_reset()
+            r, d = env.step(a)
+            s2, r2, d2 = ref.functional_step(s, a)
+            if not obs_eq(env.state, s2) or r != r2 or d != d2:
+                out.append(V('stateful/step-differs-from-functional', f'{c.get("file")} step {k}: {r} {d} vs {r2} {d2}'))
+                return out
+            if env._observation is not None:
+                out.append(V('stateful/observation-not-invalidated', f'step {k}'))
+            s = s2
+            if d:
+                env.reset()
+                s = ref.functional_reset()
+        return out
+
+
+class C20(Oracle):
+    prop = 'C20'
+
+    def gen(self, rng):
+        g = gen_env_cases(rng, p_random=0.0)
+        while True:
+            c = next(g)
+            c['enc'] = rng.choice(['default', 'no-overlap', 'compact'])
+            c['mode'] = rng.choice(['make', 'direct', 'state'])
+            yield c
+
+    def check(self, c):
+        import os
+        import gym
+        import numpy as np
+        from gym_gridverse.gym import STRING_TO_YAML_FILE, GymEnvironment, GymStateWrapper, outer_env_factory
+        from gym_gridverse.representations.observation_representations import make_observation_representation
+        from gym_gridverse.representations.state_representations import make_state_representation
+
+        out = []
+        fname = os.path.basename(c['file'])
+        path = os.path.join(gvenv.REPO, 'gym_gridverse', 'registered_envs', fname)
+        gid = [k for k, v in STRING_TO_YAML_FILE.items() if v == fname]
+        if c['mode'] == 'make' and gid:
+            w = gym.make(gid[0], disable_env_checker=True)
+            genv = w.unwrapped
+        else:
+            genv = GymEnvironment(outer_env_factory(path))
+            w = genv
+        genv.set_observation_representation(c['enc'])
+        shadow = build_env(c['file'])
+        inner = genv.outer_env.inner_env
+        orep = make_observation_representation(c['enc'], shadow.observation_space)
+        state_mode = c['mode'] == 'state' and inner.state_space.can_be_represented
+        if state_mode:
+            genv.set_state_representation(c['enc'])
+            w = GymStateWrapper(genv)
+            srep = make_state_representation(c['enc'], shadow.state_space)
+            if w.observation_space != genv.state_space:
+                out.append(V('gym/state-wrapper-space', 'advertised space is not the state space'))
+        inner.set_seed(c['seed'])
+        shadow.set_seed(c['seed'])
+
+        def same(d1, d2):
+            return list(d1.keys()) == list(d2.keys()) and all(np.array_equal(d1[k], d2[k]) and d1[k].dtype == d2[k].dtype for k in d1)
+
+        o = w.reset()
+        if isinstance(o, tuple):
+            o = o[0]
+        shadow.reset()
+        exp_o = orep.convert(shadow.observation)
+        if state_mode:
+            if not same(o, srep.convert(shadow.state)) or not w.observation_space.contains(o):
+                out.append(V('gym/state-wrapper-reset', f'{fname}'))
+        elif not same(o, exp_o) or not genv.observation_space.contains(o):
+            out.append(V('gym/reset-observation', f'{fname} enc={c["enc"]}'))
+        nact = genv.action_space.n
+        if nact != len(shadow.action_space.actions):
+            out.append(V('gym/action-space-size', fname))
+        for k, ai in enumerate(c['actions']):
+            res = w.step(ai)
+            o, r, d, info = res[0], res[1], res[2], res[-1]
+            r2, d2 = shadow.step(shadow.action_space.actions[ai])
+            exp_o = orep.convert(shadow.observation)
+            if r != r2 or d != d2:
+                out.append(V('gym/reward-or-flag', f'{fname} step {k} index {ai}'))
+                break
+            if state_mode:
+                if not same(o, srep.convert(shadow.state)) or not w.observation_space.contains(o):
+                    out.append(V('gym/state-wrapper-step', f'{fname} step {k}'))
+                if list(info.keys()) != ['observation'] or not same(info['observation'], exp_o):
+                    out.append(V('gym/state-wrapper-info', f'{fname} step {k}'))
+            else:
+                if not same(o, exp_o):
+                    out.append(V('gym/step-observation', f'{fname} step {k} index {ai} enc={c["enc"]}'))
+                if not genv.observation_space.contains(o):
+                    out.append(V('gym/observation-outside-advertised-space', f'{fname} step {k} enc={c["enc"]}'))
+                if info != {}:
+                    out.append(V('gym/info-not-empty', fname))
+            if d:
+                w.reset()
+                shadow.reset()
+        # switching representation updates the advertised space
+        other = [e for e in ('default', 'no-overlap', 'compact') if e != c['enc']][c['seed'] % 2]
+        genv.set_observation_representation(other)
+        o = genv.observation
+        if not genv.observation_space.contains(o) or not same(o, make_observation_representation(other, shadow.observation_space).convert(shadow.observation)):
+            out.append(V('gym/set-representation', f'{fname} {c["enc"]}->{other}'))
+        return out
+
+
+ORACLES = {'C18': C18, 'C08': C08, 'C09': C09, 'C10': C10, 'C11': C11, 'C12': C12, 'C05': C05, 'C06': C06, 'C07': C07, 'C04': C04, 'C20': C20}
